@@ -224,7 +224,7 @@ class PyCodegen(Stringifier):
     def visit_Loop(self, o, **kwargs):
         """
         Format loop with explicit range as
-          for <var> in range(<start>, <end> + <incr>, <incr>):
+          for <var> in range(<start>, <end> + (1 if <incr> > 0 else -1), <incr>):
             ...body...
         """
         var = self.visit(o.variable, **kwargs)
@@ -232,7 +232,9 @@ class PyCodegen(Stringifier):
         end = self.visit(o.bounds.stop, **kwargs)
         if o.bounds.step:
             incr = self.visit(o.bounds.step, **kwargs)
-            cntrl = f'range({start}, {end} + {incr}, {incr})'
+            # Python excludes the stop value: move it one past the (inclusive)
+            # Fortran bound in the direction of travel
+            cntrl = f'range({start}, {end} + (1 if {incr} > 0 else -1), {incr})'
         else:
             cntrl = f'range({start}, {end} + 1)'
         header = self.format_line('for ', var, ' in ', cntrl, ':')
